@@ -7,6 +7,6 @@ CONSTANTS
   OtherInit <- NoOther
   ILArgs <- RepILB
   LimbReps <- RepLimbs
-  Classes <- AllClasses
+  Classes <- SimClasses
   EmitOps <- NoEmit
 CONSTRAINT SizeBound
